@@ -295,7 +295,11 @@ func augmentOverlayFile(file *ast.File, overrides map[string]overrideInfo) {
 				oi.overrideSignature = d
 				purgeDecl = true
 			}
-			overrides[k] = oi
+			if d.Name.Name != `_` {
+				// The blank identifier declares nothing, so it can't
+				// override the blank declarations of the original.
+				overrides[k] = oi
+			}
 		case *ast.GenDecl:
 			for j, spec := range d.Specs {
 				purgeSpec := purgeDecl || astutil.Purge(spec)
